@@ -37,7 +37,7 @@ from ..engine.normalize import positional
 from ..engine.report import AnalysisError, Run
 from ..engine.resolver import Program, contains_await
 from ..engine.util import find_calls, method_call, nodes_with_call, u
-from ._c06_util import (Flow, Org, Tri, cmp_eval, first_run_sync_name, indent_of, lifted, names_eq, pruned, result_sites, seg, spliced, src_patch, stmt_patch,
+from ._c06_util import (Flow, Org, Tri, cmp_eval, first_run_sync_name, indent_of, inline_all, lifted, names_eq, pruned, result_sites, seg, spliced, src_patch, stmt_patch,
                         transitive_helpers, truth_atom, unawait)
 from .c13 import check_steps, engine_drops_round, step_classes
 from .c19 import check_sync as fallback_sync
@@ -289,16 +289,32 @@ def check_all(run: Run, prog: Program, rnd: Round) -> None:
               "apply() fetches an input a second time within one round", node=fn.node, file=fn.file)
 
 
+def fetch_unit(prog: Program) -> Any:
+    """MetricFetcher.fetch_next() as one unit of behaviour: every private callee read in (`_fetch_next`,
+    however it is called, split or inlined), except the shared validity predicate."""
+    return inline_all(prog, prog.func(f"{MF}.fetch_next"), stop={"_is_value_valid"})
+
+
 def check_one(run: Run, prog: Program) -> None:
-    fn = prog.func(f"{MF}._fetch_next")
+    fn = prog.func(f"{MF}.fetch_next")
     run.analysed(fn.qual)
-    cfg = CFG(fn.node, fn.file)
-    prim = nodes_with_call(cfg, lambda c: method_call(c, "self._stream", "receive"))
-    deleg = nodes_with_call(cfg, lambda c: method_call(c, "self", "fetch_next_with_fallback"))
-    sources = prim + deleg
+    unit = fetch_unit(prog)
+    for nm in sorted(getattr(unit.node, "_inlined", ())):
+        run.analysed(f"{MF}.{nm}")
+    fl = Flow(prog, unit)
+    cfg = fl.cfg
+
+    def awaited(c: ast.Call) -> bool:
+        return isinstance(fl._parent.get(id(c)), ast.Await)
+
+    prim = [nid for nid, c in fl.calls(lambda c: method_call(c, "self._stream", "receive")) if awaited(c)]
+    deleg = [nid for nid, c in fl.calls(lambda c: method_call(c, "self", "fetch_next_with_fallback")) if awaited(c)]
+    unawaited = [c for _n, c in fl.calls(lambda c: method_call(c, "self._stream", "receive") or method_call(
+        c, "self", "fetch_next_with_fallback")) if not awaited(c)]
+    sources = sorted(set(prim + deleg))
     normal = lambda a, b, lab: not lab.startswith("exc:")  # noqa: E731
     wit = cfg.path(cfg.entry, [cfg.exit], avoid=sources, edge_ok=normal)
-    run.check(bool(sources) and wit is None, "C06.ONE", fn.qual, "every path fetches the primary",
+    run.check(bool(sources) and not unawaited and wit is None, "C06.ONE", fn.qual, "every path fetches the primary",
               "a round can complete without reading this input", node=fn.node, file=fn.file,
               path=cfg.describe_path(wit))
     twice = None
@@ -321,15 +337,13 @@ def check_one(run: Run, prog: Program) -> None:
     run.check(len(p2) == 1 and wit is None and twice is None, "C06.ONE", fw.qual,
               "primary received exactly once with fallback", "the primary stream is not read exactly once "
               "per round on the fallback-aware path", node=fw.node, file=fw.file, path=cfg2.describe_path(wit or twice))
-    fn3 = prog.func(f"{MF}.fetch_next")
-    run.analysed(fn3.qual)
-    cfg3 = CFG(fn3.node, fn3.file)
-    calls = nodes_with_call(cfg3, lambda c: method_call(c, "self", "_fetch_next"))
-    wit = cfg3.path(cfg3.entry, [cfg3.exit], avoid=calls, edge_ok=normal)
-    twice = cfg3.path(calls[0], calls, include_src=False) if calls else None
-    run.check(len(calls) == 1 and wit is None and twice is None and not find_calls(
-        fn3.node, lambda c: isinstance(c.func, ast.Attribute) and c.func.attr == "receive"), "C06.ONE", fn3.qual,
-        "fetch_next -> one _fetch_next", "fetch_next does not perform exactly one fetch", node=fn3.node, file=fn3.file)
+    # nothing else in the fetcher's private helpers reads the primary stream behind fetch_next()'s back
+    mfc = prog.cls(MF)
+    covered = {"fetch_next", "fetch_next_with_fallback"} | set(getattr(unit.node, "_inlined", ()))
+    stray = [(m, c) for m in mfc.methods.values() if m.name not in covered for c in find_calls(
+        m.node, lambda c: method_call(c, "self._stream", "receive"))]
+    run.check(not stray, "C06.ONE", fn.qual, "the primary stream is only read on the paths of fetch_next()",
+              "the primary stream is also read by " + ", ".join(sorted({m.name for m, _c in stray})), node=fn.node, file=fn.file)
     # steps never receive
     for cls in step_classes(prog):
         m = cls.methods["apply"]
